@@ -363,6 +363,7 @@ type c08Field struct {
 	depNot                           bool
 	lo, hi                           float64
 	hasRange                         bool
+	noLo, noHi                       bool // half-open range: the bound is omitted in the tag
 	options                          []string
 }
 
@@ -436,7 +437,9 @@ func c08GenType(r *verifh.Rng, depth int, fromStringAll bool) *c08Ty {
 				f.ty.prim = r.PickS("int", "i8", "u8", "f64", "str", "i64")
 			}
 		}
-		if r.Chance(1, 5) && f.ty.slice == nil && f.ty.mp == nil {
+		isCont := f.ty.slice != nil || f.ty.mp != nil
+		// pointers, also to slices and maps (`*[]T`, `*map[string]T`, `**[]T`)
+		if (!isCont && r.Chance(1, 5)) || (isCont && r.Chance(1, 4)) {
 			f.ty = &c08Ty{ptr: f.ty}
 			if r.Chance(1, 6) {
 				f.ty = &c08Ty{ptr: f.ty}
@@ -498,11 +501,13 @@ func c08GenType(r *verifh.Rng, depth int, fromStringAll bool) *c08Ty {
 					}
 					lb, rb := r.PickS("[", "[", "("), r.PickS("]", "]", ")")
 					ls, rs := c08FmtBound(r, lo), c08FmtBound(r, hi)
-					switch r.Intn(8) {
+					switch r.Intn(6) {
 					case 0:
 						ls = ""
+						f.noLo = true
 					case 1:
 						rs = ""
+						f.noHi = true
 					}
 					if lo == hi && r.Chance(3, 4) {
 						lb, rb = "[", "]"
@@ -562,12 +567,25 @@ func c08GenType(r *verifh.Rng, depth int, fromStringAll bool) *c08Ty {
 				}
 			}
 			if base.slice != nil && base.slice.prim == "str" && r.Chance(1, 2) {
-				opts = append(opts, r.PickS("default=[a,b]", "default=x", "default=[]"))
+				opts = append(opts, r.PickS("default=[a,b]", "default=x", "default=[]", "default=[true]", "default=[1,2]", "default=[1.5]"))
+				f.hasDefault = true
+			} else if base.slice != nil && base.slice.base().prim != "" && r.Chance(1, 3) {
+				// the same default texts on other element kinds: the parsed default is cached (defaultCache)
+				opts = append(opts, r.PickS("default=[true]", "default=[1,2]", "default=[1.5]", "default=[]", "default=5", "default=[a,b]"))
 				f.hasDefault = true
 			}
 		}
 		if r.Chance(1, 60) {
 			opts = append(opts, r.PickS("default", "range", "options=a=b", "env", "bogus", "optional=a,b"))
+		}
+		if r.Chance(1, 25) {
+			opts = append(opts, "env=C08_VERIF_UNSET_"+strings.ToUpper(f.key)) // never set: the option is transparent
+		}
+		if r.Chance(1, 50) {
+			opts = append(opts, "inherit") // outside the model: panic monitor only
+		}
+		if r.Chance(1, 60) && keyTok != "" && keyTok != "-" {
+			keyTok = "p." + keyTok // dotted key: outside the model, panic monitor only
 		}
 		// order of options is irrelevant to the parser: shuffle
 		for j := len(opts) - 1; j > 0; j-- {
@@ -598,6 +616,9 @@ func c08GenContainer(r *verifh.Rng, depth int, fromStringAll bool) *c08Ty {
 		}
 	case x < 9:
 		elem = c08GenContainer(r, depth+1, fromStringAll)
+		if r.Chance(1, 3) {
+			elem = &c08Ty{ptr: elem} // []*[]T, map[string]*map[string]T, ...
+		}
 	default:
 		elem = &c08Ty{prim: "int"}
 	}
@@ -647,6 +668,13 @@ func c08IntLit(r *verifh.Rng, f *c08Field, p string) string {
 	if len(f.options) > 0 && r.Chance(1, 2) {
 		return f.options[r.Intn(len(f.options))]
 	}
+	// half-open ranges: values far on the open side, zero and negative numbers
+	if f.noLo && r.Chance(1, 2) {
+		return r.PickS("0", "-1", "-2", "-7", "-100", "-128", "-32768")
+	}
+	if f.noHi && r.Chance(1, 2) {
+		return r.PickS("0", "9", "100", "127", "255", "30000", "65535")
+	}
 	if f.hasRange && r.Chance(3, 4) {
 		lo, hi := int(math.Floor(f.lo)), int(math.Ceil(f.hi))
 		switch r.Intn(7) {
@@ -682,6 +710,12 @@ func c08IntLit(r *verifh.Rng, f *c08Field, p string) string {
 func c08FloatLit(r *verifh.Rng, f *c08Field, p string) string {
 	if len(f.options) > 0 && r.Chance(1, 2) {
 		return f.options[r.Intn(len(f.options))]
+	}
+	if f.noLo && r.Chance(1, 2) {
+		return r.PickS("0", "-0.25", "-1", "-2.5", "-100", "-1e3")
+	}
+	if f.noHi && r.Chance(1, 2) {
+		return r.PickS("0", "0.25", "9.75", "100", "1e3", "65536")
 	}
 	if f.hasRange && r.Chance(3, 4) {
 		switch r.Intn(6) {
@@ -802,6 +836,15 @@ func c08GenInput(r *verifh.Rng, t *c08Ty, sb *strings.Builder, fsAll, fa bool, p
 				sb.WriteString(r.PickS("n:1", "true", "{ }", "[ ]", "n:5"))
 				continue
 			}
+			if r.Chance(1, 14) {
+				// string-encoded container (JSON text, base64): outside the model, panic monitor only
+				if base.slice != nil {
+					sb.WriteString(r.PickS("s:[1,2]", "s:[]", "s:[1,null]", `s:["a"]`, "s:[[1]]", "s:[true]", `s:[{"a":1}]`, "s:x", "s:aGk=", "s:5"))
+				} else {
+					sb.WriteString(r.PickS(`s:{"k":1}`, "s:{}", `s:{"k":"v"}`, `s:{"k":null}`, `s:{"k":[1]}`, `s:{"k":{"a":1}}`, "s:x", "s:[]"))
+				}
+				continue
+			}
 			var inner strings.Builder
 			c08ElemInput(r, base, &inner, false)
 			v := strings.TrimSpace(inner.String())
@@ -857,7 +900,18 @@ func c08Gen(r *verifh.Rng) []verifh.Section {
 				"u key=header fs=1 fa=0 T { A str t:a,optional B str t:b,optional=!a } I { A s:1 }",
 				"u key=header fs=1 fa=0 T { A str t:x-a,optional B int t:b,optional=x-a,range=[1:5] } I { X-A s:1 B s:9 }",
 				"u key=json fs=0 fa=0 T { M map * int t:m } I { m { k n:1 } }",
-				"u key=json fs=0 fa=0 T { M map [] int t:m } I { m { k null } }")
+				"u key=json fs=0 fa=0 T { M map [] int t:m } I { m { k null } }",
+				// round 2: pointers to slices and maps (panics of the pinned commit), default cache shared across element kinds
+				"u key=json fs=0 fa=0 T { A * [] int t:a } I { a [ ] }",
+				"u key=json fs=0 fa=0 T { A * [] int t:a } I { a [ n:1 n:2 ] }",
+				"u key=json fs=0 fa=0 T { A * [] int t:a,optional } I { a [ null ] }",
+				"u key=json fs=0 fa=0 T { A * map int t:a } I { }",
+				"u key=json fs=0 fa=0 T { A * map int t:a } I { a { k n:1 } }",
+				"u key=json fs=0 fa=0 T { A [] * [] int t:a } I { a [ [ n:1 ] null [ ] ] }",
+				"u key=json fs=0 fa=0 T { A map * [] int t:a } I { a { k [ n:1 ] j [ ] } }",
+				"u key=json fs=0 fa=0 T { A * [] str t:a,default=[x,y] } I { }",
+				"u key=json fs=0 fa=0 T { A [] bool t:a,default=[true] } I { }",
+				"u key=json fs=0 fa=0 T { A [] str t:a,default=[true] } I { }")
 		}
 		ntypes := verifh.Scale(12, 30)
 		for k := 0; k < ntypes; k++ {
